@@ -71,10 +71,10 @@ def cases(tier):
                                     yield {'k': 'hocur', 'd': d, 'm': m, 'ws': [list(w) for w in ws], 'rk': rk, 'rlist': rlist, 'rep': rep, 'mult': mult}
                     # integer-dtype data (distinct non-zero snapshots), and an integer-valued basis function (indicator) ahead of
                     # real-valued ones: the transformed tensor is real all the same
-                    for fam in ('intdtype', 'indicator', 'big', 'repeat'):
+                    for fam in ('intdtype', 'indicator', 'big', 'repeat', 'repeat-lead'):
                         if fam == 'indicator' and p != 2:
                             continue          # (exact zeros of the tensor with >= 3 modes: see the recorded finding)
-                        for rk in ((m, m + 2) if fam != 'repeat' else (m - 1, m, m + 2)):
+                        for rk in ((m, m + 2) if not fam.startswith('repeat') else (m - 1, m, m + 2)):
                             for mult in (2, 10):
                                 yield {'k': 'hocur', 'd': d, 'm': m, 'ws': [list(w) for w in ws], 'rk': rk, 'rlist': False, 'rep': 1, 'mult': mult, 'fam': fam}
     # data with exact zeros (every zero pattern of the d x m data matrix, fixed non-zero values): the first basis functions
@@ -186,6 +186,22 @@ def run_case(case, seed):
         with r.op('gram:call'):
             G = tdt.gram(x1, x2, basis)
             r.close('gram:value', G, P1.T @ P2, 1e-12)
+        # time-lagged windows of ONE trajectory array (overlapping views of the same buffer), and the same array twice
+        mm = max(case['m1'], 2)
+        z = data(rng, d, mm + 2, 'gauss')
+        for lag in (1, 2):
+            xa, xb = z[:, :mm], z[:, lag:mm + lag]
+            Pa = psi_oracle(np.array(xa), basis).reshape(-1, mm); Pb = psi_oracle(np.array(xb), basis).reshape(-1, mm)
+            with r.op('gram:views:call'):
+                r.close('gram:views:value', tdt.gram(xa, xb, basis), Pa.T @ Pb, 1e-12, 'windows z[:, :m] and z[:, %d:m+%d] of one array' % (lag, lag))
+        with r.op('gram:same-array:call'):
+            r.close('gram:same-array:value', tdt.gram(x1, x1, basis), P1.T @ P1, 1e-12)
+        # a mode that consists of indicator functions only (overlapping intervals): counts, not logical products
+        if len(basis) <= 2:
+            ib = [[tdt.IndicatorFunction(0, -2.0, 0.5), tdt.IndicatorFunction(0, -0.5, 2.0), tdt.IndicatorFunction(0, -0.2, 0.2)]] + basis[1:]
+            Q1 = psi_oracle(x1, ib).reshape(-1, case['m1']); Q2 = psi_oracle(x2, ib).reshape(-1, case['m2'])
+            with r.op('gram:indicator-mode:call'):
+                r.close('gram:indicator-mode:value', np.asarray(tdt.gram(x1, x2, ib), dtype=float), Q1.T @ Q2, 1e-12)
     else:
         d, m = case['d'], case['m']
         if 'mask' in case:
@@ -199,6 +215,8 @@ def run_case(case, seed):
             x = x[:, np.argsort(perm)[::-1]]
         else:
             x = data(rng, d, m, 'repeat' if case.get('fam') == 'repeat' else 'gauss')
+            if case.get('fam') == 'repeat-lead' and m > 1:
+                x[:, 1] = x[:, 0]           # the first two snapshots coincide: the leading column candidates are rank deficient
             if case.get('fam') == 'big':
                 x = 6.0 * x                 # transformed entries up to ~1e4: rank decisions must be relative to the data's scale
         x0 = x.copy()
@@ -214,7 +232,7 @@ def run_case(case, seed):
         want = psi_oracle(x, basis)
         r.nontrivial = True
         complete = rk >= m and case['mult'] >= max(n[1:] + [1])
-        if case.get('fam') == 'repeat' and rk == m - 1:
+        if str(case.get('fam')).startswith('repeat') and rk == m - 1:
             # a repeated snapshot: the true ranks are at most m-1, so rank m-1 is still admissible when it covers them
             tr = [np.linalg.matrix_rank(want.reshape(int(np.prod(want.shape[:k_])), -1), tol=1e-9 * np.abs(want).max()) for k_ in range(1, want.ndim)]
             complete = rk >= max(tr) and case['mult'] >= max(n[1:] + [1])
@@ -238,6 +256,21 @@ def run_case(case, seed):
                 return r
             key = 'hocur:zeros-in-data:two-modes' if case['mask'] else 'hocur:complete-candidates'
             complete = True
+        if case.get('fam') == 'repeat-lead' and rk == m - 1 and complete:
+            # recorded limitation (known_findings.json), second input class of the same cause: the column candidates of the
+            # earlier modes are built from the FIRST `rank` snapshot indices only, so with ranks == number of distinct snapshots
+            # and a duplicate among the leading snapshots they span too little and the ranks are under-estimated
+            try:
+                with quiet():
+                    T = tdt.hocur(x, basis, ranks, repeats=case['rep'], multiplier=case['mult'], progress=False)
+                ok = meta_problem(T) is None and np.linalg.norm(dn(T).reshape(want.shape) - want) <= 1e-8 * np.linalg.norm(want)
+            except Exception:
+                ok = False
+            r.true('hocur:repeated-leading-snapshot:ranks-equal-distinct-snapshots:column-candidates-miss-the-column-space', ok,
+                   'hocur does not reproduce the tensor although ranks %d >= true ranks %s (multiplier %d)' % (rk, tr, case['mult']))
+            r.outcome = 'hocur-repeat-lead-' + ('exact' if ok else 'inexact')
+            r.true('hocur:data-unchanged', np.array_equal(x, x0))
+            return r
         with r.op(key + ':call'):
             with quiet():
                 T = tdt.hocur(x, basis, ranks, repeats=case['rep'], multiplier=case['mult'], progress=False)
